@@ -6,6 +6,7 @@ test-suite does not notice (all 180 stable baseline tests still pass), and runs 
 anchored in the mutated file on each of them (scratch copies under /var/tmp, removed afterwards).
 
 usage: tools/mutate.py [--n 300] [--seed 1] [--runs 8000] [--jobs 12] [--out /var/tmp/mutation.jsonl]
+       tools/mutate.py --recheck /var/tmp/mutation.jsonl --out /var/tmp/mutation2.jsonl [--runs 6000]   (second pass, all seven checks)
 """
 import ast
 import json
@@ -179,10 +180,43 @@ def stage2(scratch, props, runs):
     return res
 
 
+ALL = ["C05", "C13", "C14", "C15", "C16", "C19", "C20"]
+
+
+def recheck(inp, outp, runs):
+    """Second pass: every mutant no check reported in the first pass is run against all seven checks (the first pass only runs
+    the checks of the properties anchored in the mutated file); records are rewritten to `outp`."""
+    done = set()
+    if os.path.exists(outp):
+        done = {(r["file"], r["line"], r["kind"]) for r in map(json.loads, open(outp))}
+    for rec in map(json.loads, open(inp)):
+        key = (rec["file"], rec["line"], rec["kind"])
+        if key in done:
+            continue
+        if rec["stage1"] == "survives-tests" and not rec.get("caught"):
+            orig = open(os.path.join(REPO, rec["file"])).read().split("\n")[rec["line"] - 1]
+            indent = orig[:len(orig) - len(orig.lstrip())]
+            scratch = make_tree(rec["file"], rec["line"], indent + rec["new"])
+            if scratch is not None:
+                try:
+                    first = FILES[rec["file"]][0]
+                    rec["checks"] = stage2(scratch, first + [p for p in ALL if p not in first], runs)
+                    rec["caught"] = any(v["rc"] == 1 for v in rec["checks"].values())
+                    rec["pass"] = 2
+                finally:
+                    shutil.rmtree(scratch, ignore_errors=True)
+            print(("CAUGHT  " if rec["caught"] else "SURVIVES"), rec["file"], rec["line"], rec["kind"], "|", rec["new"][:70], flush=True)
+        with open(outp, "a") as f:
+            f.write(json.dumps(rec) + "\n")
+    return 0
+
+
 def main():
     arg = lambda k, d: type(d)(sys.argv[sys.argv.index(k) + 1]) if k in sys.argv else d
     n, seed, runs, jobs = arg("--n", 300), arg("--seed", 1), arg("--runs", 8000), arg("--jobs", 12)
     outp = arg("--out", "/var/tmp/mutation.jsonl")
+    if "--recheck" in sys.argv:
+        return recheck(arg("--recheck", ""), outp, runs)
     cands = candidates()
     rng = random.Random(seed)
     rng.shuffle(cands)
